@@ -38,6 +38,7 @@ Append1 = z3.Function("Append1", Seq, Val, Seq)
 RemoveAt = z3.Function("RemoveAt", Seq, I, Seq)
 IndexOf = z3.Function("IndexOf", Seq, Val, I)
 Contains = z3.Function("Contains", Seq, Val, B)
+NoDup = z3.Function("NoDup", Seq, B)
 Take = z3.Function("Take", Seq, I, Seq)
 Drop = z3.Function("Drop", Seq, I, Seq)
 Concat = z3.Function("Concat", Seq, Seq, Seq)
@@ -92,6 +93,15 @@ def seq_axioms():
     fa([s, k, y], z3.Implies(z3.And(0 <= k, k < Len(s), Contains(s, y), y != At(s, k)),
                              Contains(RemoveAt(s, k), y)),
        [z3.MultiPattern(RemoveAt(s, k), Contains(s, y))])
+    # NoDup: "no element occurs twice" as a predicate with structural axioms (cheaper than its two-index definition)
+    A.append(NoDup(Empty))
+    fa([s, x], NoDup(Append1(s, x)) == z3.And(NoDup(s), z3.Not(Contains(s, x))), [NoDup(Append1(s, x))])
+    fa([s, k], z3.Implies(z3.And(NoDup(s), 0 <= k, k < Len(s)), NoDup(RemoveAt(s, k))), [NoDup(RemoveAt(s, k))])
+    # the removed element of a duplicate-free sequence is gone
+    fa([s, k], z3.Implies(z3.And(NoDup(s), 0 <= k, k < Len(s)), z3.Not(Contains(RemoveAt(s, k), At(s, k)))),
+       [z3.MultiPattern(NoDup(s), RemoveAt(s, k))])
+    # positions are determined by elements
+    fa([s, k], z3.Implies(z3.And(NoDup(s), 0 <= k, k < Len(s)), IndexOf(s, At(s, k)) == k), [z3.MultiPattern(NoDup(s), At(s, k))])
     # Update
     fa([s, k, x], z3.Implies(z3.And(0 <= k, k < Len(s)),
                              z3.And(Len(Update(s, k, x)) == Len(s), At(Update(s, k, x), k) == x)),
